@@ -658,8 +658,9 @@ func TestVF_C08_RegistryStress(t *testing.T) {
 					case 6:
 						sm.RemoveLocalReceiverCancelFunc(sh)
 					case 7:
-						sm.UnregisterActiveReceiver(sh)
-						_, _ = sm.GetActiveReceiver(sh)
+						if cur, ok := sm.GetActiveReceiver(sh); ok {
+							sm.UnregisterActiveReceiver(sh, cur)
+						}
 					case 8:
 						_ = sm.GetLocalShards()
 						_ = sm.IsLocalShard(sh)
@@ -679,7 +680,9 @@ func TestVF_C08_RegistryStress(t *testing.T) {
 		for _, sh := range shards {
 			sm.TerminatePreviousLocalReceiver(sh, vfNoop())
 			sm.RemoveLocalReceiverCancelFunc(sh)
-			sm.UnregisterActiveReceiver(sh)
+			if cur, ok := sm.GetActiveReceiver(sh); ok {
+				sm.UnregisterActiveReceiver(sh, cur)
+			}
 		}
 		if ci := sm.GetChannelInfo(); ci.TotalAckChannels != 0 || ci.TotalSendChannels != 0 || len(sm.GetLocalShards()) != 0 {
 			rp := vfshared.WriteReplay("C08", part, c)
